@@ -663,4 +663,113 @@ theorem simpleField_value (k sep v : Bytes) (hs : ∀ c ∈ sep, isWs c = true) 
     simp [this, trimLeft]
   · rw [trimRight_append_keep sep v (by rw [hc.2]; exact hv), hc.2, trimLeft_ws_append sep v hs, hc.1]
 
+/-! ### a stanza written in any field order states its entry -/
+
+/-- the five fields `parseStatus` reads, each written on one line with any
+    spaces/tabs after the colon; `Source` only when the entry has one -/
+def stdFields (e : Entry) (status : Bytes) (seps : Fin 5 → Bytes) : List Field :=
+  [simpleField kPackage (seps 0) e.name, simpleField kStatus (seps 1) status,
+   simpleField kVersion (seps 2) e.version, simpleField kArchitecture (seps 3) e.arch] ++
+  (if e.src.isSome then [simpleField kSource (seps 4) e.sourceField] else [])
+
+def reservedKeys : List Bytes := [kPackage, kStatus, kVersion, kArchitecture, kSource]
+
+theorem canon_reserved : ∀ k ∈ reservedKeys, canonLoop true k = k := by decide
+
+theorem hdr_unique_of_fields (fs : List Field) (k v : Bytes) (f : Field) (hf : f ∈ fs) (he : f.entry = (k, v))
+    (hu : ∀ g ∈ fs, g.entry.1 = k → g.entry.2 = v) : Hdr.Unique (hdrOf fs) k v := by
+  refine ⟨?_, ?_⟩
+  · exact List.mem_map.2 ⟨f, hf, he⟩
+  · intro v' hv'
+    obtain ⟨g, hg, hge⟩ := List.mem_map.1 hv'
+    have := hu g hg (by rw [hge])
+    rw [hge] at this
+    exact this
+
+theorem states_of_written (e : Entry) (status : Bytes) (seps : Fin 5 → Bytes) (extras fs : List Field)
+    (hperm : fs.Perm (stdFields e status seps ++ extras))
+    (hex : ∀ x ∈ extras, canonLoop true x.key ∉ reservedKeys)
+    (hseps : ∀ i, ∀ c ∈ seps i, isWs c = true)
+    (hst : statusInstalled status = e.installed)
+    (cn : Clean e.name) (cv : Clean e.version) (ca : Clean e.arch) (cs : Clean status) (csrc : Clean e.sourceField) :
+    States (hdrOf fs) e := by
+  have mem_iff : ∀ g, g ∈ fs ↔ g ∈ stdFields e status seps ++ extras := fun g => hperm.mem_iff
+  have entry_simple : ∀ k sep v, k ∈ reservedKeys → (∀ c ∈ sep, isWs c = true) → Clean v →
+      (simpleField k sep v).entry = (k, v) := by
+    intro k sep v hk hs hc
+    simp only [Field.entry, simpleField_value k sep v hs hc]
+    rw [show (simpleField k sep v).key = k from rfl, canon_reserved k hk]
+  -- every field whose canonical key is reserved is one of the standard ones
+  have std_of_key : ∀ g ∈ fs, g.entry.1 ∈ reservedKeys → g ∈ stdFields e status seps := by
+    intro g hg hk
+    rcases List.mem_append.1 ((mem_iff g).1 hg) with h | h
+    · exact h
+    · exact absurd hk (hex g h)
+  have key : ∀ (k v : Bytes) (sep : Bytes), k ∈ reservedKeys → (∀ c ∈ sep, isWs c = true) → Clean v →
+      simpleField k sep v ∈ stdFields e status seps →
+      (∀ g ∈ stdFields e status seps, g.entry.1 = k → g = simpleField k sep v) →
+      (hdrOf fs).get k = v := by
+    intro k v sep hk hs hc hmem honly
+    apply Hdr.get_of_unique
+    apply hdr_unique_of_fields fs k v (simpleField k sep v) ((mem_iff _).2 (List.mem_append_left _ hmem))
+      (entry_simple k sep v hk hs hc)
+    intro g hg hgk
+    have := honly g (std_of_key g hg (by rw [hgk]; exact hk)) hgk
+    rw [this, entry_simple k sep v hk hs hc]
+  -- the keys of the standard fields
+  have std_cases : ∀ g ∈ stdFields e status seps,
+      g = simpleField kPackage (seps 0) e.name ∨ g = simpleField kStatus (seps 1) status ∨
+      g = simpleField kVersion (seps 2) e.version ∨ g = simpleField kArchitecture (seps 3) e.arch ∨
+      (e.src.isSome = true ∧ g = simpleField kSource (seps 4) e.sourceField) := by
+    intro g hg
+    simp only [stdFields, List.mem_append, List.mem_cons, List.mem_nil_iff, or_false] at hg
+    rcases hg with (h | h | h | h) | h
+    · exact Or.inl h
+    · exact Or.inr (Or.inl h)
+    · exact Or.inr (Or.inr (Or.inl h))
+    · exact Or.inr (Or.inr (Or.inr (Or.inl h)))
+    · split at h
+      · rename_i hs; simp only [List.mem_cons, List.mem_nil_iff, or_false] at h; exact Or.inr (Or.inr (Or.inr (Or.inr ⟨hs, h⟩)))
+      · simp at h
+  have e0 := entry_simple kPackage (seps 0) e.name (by decide) (hseps 0) cn
+  have e1 := entry_simple kStatus (seps 1) status (by decide) (hseps 1) cs
+  have e2 := entry_simple kVersion (seps 2) e.version (by decide) (hseps 2) cv
+  have e3 := entry_simple kArchitecture (seps 3) e.arch (by decide) (hseps 3) ca
+  have e4 := entry_simple kSource (seps 4) e.sourceField (by decide) (hseps 4) csrc
+  have only : ∀ (k : Bytes) (target : Field), k ∈ reservedKeys → target ∈ stdFields e status seps → target.entry.1 = k →
+      ∀ g ∈ stdFields e status seps, g.entry.1 = k → g = target := by
+    intro k target hk ht htk g hg hgk
+    rcases std_cases g hg with rfl | rfl | rfl | rfl | ⟨_, rfl⟩ <;>
+    rcases std_cases target ht with rfl | rfl | rfl | rfl | ⟨_, rfl⟩ <;>
+    first
+      | rfl
+      | (exfalso; rw [e0] at *; rw [e1] at *; rw [e2] at *; rw [e3] at *; rw [e4] at *; simp only at hgk htk; rw [← htk] at hgk; revert hgk; decide)
+  have m0 : simpleField kPackage (seps 0) e.name ∈ stdFields e status seps := by simp [stdFields]
+  have m1 : simpleField kStatus (seps 1) status ∈ stdFields e status seps := by simp [stdFields]
+  have m2 : simpleField kVersion (seps 2) e.version ∈ stdFields e status seps := by simp [stdFields]
+  have m3 : simpleField kArchitecture (seps 3) e.arch ∈ stdFields e status seps := by simp [stdFields]
+  have g0 := key kPackage e.name (seps 0) (by decide) (hseps 0) cn m0 (only kPackage _ (by decide) m0 (by rw [e0]))
+  have g1 := key kStatus status (seps 1) (by decide) (hseps 1) cs m1 (only kStatus _ (by decide) m1 (by rw [e1]))
+  have g2 := key kVersion e.version (seps 2) (by decide) (hseps 2) cv m2 (only kVersion _ (by decide) m2 (by rw [e2]))
+  have g3 := key kArchitecture e.arch (seps 3) (by decide) (hseps 3) ca m3 (only kArchitecture _ (by decide) m3 (by rw [e3]))
+  refine ⟨by rw [g1, hst], fun _ => g0, fun _ => g2, fun _ => g3, fun _ => ?_⟩
+  cases hsrc : e.src.isSome with
+  | true =>
+    have m4 : simpleField kSource (seps 4) e.sourceField ∈ stdFields e status seps := by simp [stdFields, hsrc]
+    exact key kSource e.sourceField (seps 4) (by decide) (hseps 4) csrc m4 (only kSource _ (by decide) m4 (by rw [e4]))
+  | false =>
+    have hnone : e.src = none := by cases h : e.src <;> simp_all
+    have : e.sourceField = [] := by simp [Entry.sourceField, hnone]
+    rw [this]
+    apply Hdr.get_of_absent
+    intro v hv
+    obtain ⟨g, hg, hge⟩ := List.mem_map.1 hv
+    have hstd := std_of_key g hg (by rw [hge]; show kSource ∈ reservedKeys; decide)
+    rcases std_cases g hstd with rfl | rfl | rfl | rfl | ⟨h, _⟩
+    · rw [e0] at hge; revert hge; simp only [Prod.mk.injEq]; intro h; exact absurd h.1 (by decide)
+    · rw [e1] at hge; revert hge; simp only [Prod.mk.injEq]; intro h; exact absurd h.1 (by decide)
+    · rw [e2] at hge; revert hge; simp only [Prod.mk.injEq]; intro h; exact absurd h.1 (by decide)
+    · rw [e3] at hge; revert hge; simp only [Prod.mk.injEq]; intro h; exact absurd h.1 (by decide)
+    · rw [hsrc] at h; cases h
+
 end ClairModel.Dpkg
